@@ -159,20 +159,21 @@ def generate_composite_keys(
 
     for line_i, line in enumerate(input_list):
         if isinstance(line, dict):
-            created_composite_key = ""
+            key_fields = {}
             if elements_for_composite_key:
                 for key in elements_for_composite_key:
                     if key in line:
-                        if created_composite_key:
-                            created_composite_key += ";"
                         fullxpath = f"{prefix}/{key}"
                         transform_i = xpath_match(fullxpath, attributes_to_transform)
                         if transform_i:
-                            transform_i -= 1
-                            tranformed = transform[transform_i][1](line[key])
+                            key_fields[key] = transform[transform_i - 1][1](line[key])
                         else:
-                            tranformed = str(line[key])
-                        created_composite_key += key + "=" + tranformed
+                            key_fields[key] = line[key]
+            # A record: the key is the JSON text of its key fields (as for the items below), which keeps
+            # the values of different types apart (7 <> '7', None <> 'None') and cannot be imitated
+            # by a value that contains the separators ({'a': '1;b=2'} <> {'a': '1', 'b': '2'});
+            # a record that has none of the key fields keeps the empty key
+            created_composite_key = json.dumps(key_fields, sort_keys=True, default=repr) if key_fields else ""
         else:
             ## raise TypeError(f"generate_composite_keys(..): expected element dict inside list, but got ({type(line)}){line}")
             # n0list.compare(..) compares the items of this list transformed (the transform is looked up
